@@ -35,7 +35,7 @@ func (valdec ptrDecoder) Decode(dec *Decoder, p interface{}, tag byte) {
 			*ptr = nil
 		}
 	case TagRef:
-		o := dec.refer.Read(dec.ReadInt())
+		o := dec.readReference()
 		if o != nil && reflect.TypeOf(o) == valdec.t.Type1() {
 			// a back-reference to a pointer of this very type yields that
 			// pointer, not a copy of what it points to: shared and cyclic
